@@ -360,9 +360,22 @@ def apply(F, S):
                 S.ok("U3", "%s%s : %s" % (lab, ("." + fld) if fld else "", dstr(want)))
             else:
                 S.bad("U3", "output-dimension", "%s%s" % (lab, ("." + fld) if fld else ""), "%s%s has dimension %s; documented: %s" % (lab, ("." + fld) if fld else "", dstr(d) if d else "undetermined", dstr(want)))
-    # U5 mirror isomorphism Maximum / Minimum
+    # U5 Maximum(x) = -Minimum(-x).  Semantic route: each of the two equals its own window-extreme specification (the rules of C01-I6/I7:
+    # cached-extreme step, whole-window first-extreme rescan, +-inf fill), so both return the exact extreme of the same window and the
+    # identity follows.  Only if that cannot be shown are the two implementations compared with each other, function by function.
+    import rules_c01
+    from infra import Sink as _Sink
+    probe = _Sink(None, "C14")
+    try:
+        rules_c01.extreme_unit(F, probe, "Minimum", "U5")
+        rules_c01.extreme_unit(F, probe, "Maximum", "U5", transform=mirror)
+        spec_ok = not probe.bad_keys and probe.ok_count == 2
+    except (symex.Unsupported, KeyError, IndexError, TypeError, AttributeError):
+        spec_ok = False
+    if spec_ok:
+        S.ok("U5", "Minimum = window minimum and Maximum = window maximum (each against its own specification)", route="specification")
     N = Normalizer()
-    for name in ("next", "reset", "find_max_index", "new"):
+    for name in (() if spec_ok else ("next", "reset", "find_max_index", "new")):
         fmax = [f for f in F.fns_of("Maximum", name) if not f.derived]
         for fx in fmax:
             mname = name.replace("max", "min")
@@ -408,7 +421,7 @@ def run(tier, repo=None, tag="repo"):
     rep.rule("U2", "dimension inference: every +, -, comparison, max, conditional and store relates values of one dimension; non-zero literals only in dimensionless positions", 21)
     rep.rule("U3", "the inferred dimension of every output equals the documented one (price, dimensionless, volume)", 44)
     rep.rule("U4", "RSI's only inhomogeneity is its documented 0.1 seed (built-in positive control)", 1)
-    rep.rule("U5", "Maximum's functions are mirror images of Minimum's under {< <-> >, +inf <-> -inf, high <-> low}", 5)
+    rep.rule("U5", "Maximum(x) = -Minimum(-x): each equals its window-extreme specification (else: Maximum's functions are mirror images of Minimum's under {< <-> >, +inf <-> -inf, high <-> low})", 1)
     rep.rule("U6", "no f32 anywhere", 1)
     F = ir.load("default", repo, tag)
     apply(F, Sink(rep))
